@@ -44,7 +44,9 @@ def register(reg):
         BIT, 'BITFrameArray.add_block', {'self': BFA, 'block': Bytes},
         requires=[C + ' == len(self._temporary_frames)', C + ' >= 1',
                   # a conformant data block holds the same whole number of 4-byte values for every channel
-                  'len(block) % (4 * ' + C + ') == 0'],
+                  'len(block) % (4 * ' + C + ') == 0',
+                  # (a consequence of the line above, stated so that the solver need not derive it by nonlinear reasoning)
+                  'len(block) % ' + C + ' == 0'],
         modifies=['self._temporary_frames', 'self.frame_count'],
         ensures=['self.frame_count == old(self.frame_count) + ' + M,
                  'len(self._temporary_frames) == ' + C,
